@@ -51,8 +51,9 @@ class RestoreArgParser:
         if parsed.version:
             return PrintVersionArgs(argv0=sys_argv[0])
         else:
-            path = os.path.normpath(
-                os.path.join(curdir + os.path.sep, parsed.path))
+            # (join adds the separator itself: curdir + os.path.sep turned
+            # the root directory into '//', which no original location matches)
+            path = os.path.normpath(os.path.join(curdir, parsed.path))
 
             return RunRestoreArgs(path=path,
                                   sort=cast(Sort, {
